@@ -317,8 +317,7 @@ def run_case(case):
     for sig, v in viol.items():
         if not common.claim('C11', sig):
             continue
-        d = make_replay(ref, v)
-        status, out = common.run_replay(d)
+        d, status, out = common.replay_portfolio(lambda: make_replay(ref, v))
         v2 = {'signature': sig, 'what': v['what'], 'replay': d}
         if status == 'reproduced':
             res['violations'].append(v2)
